@@ -76,7 +76,7 @@ pub open spec fn oracle_majority(trusted: Seq<PublicKey>, atts: Seq<(PublicKey, 
                 assert(trusted_oracle_pubkeys@.take(k + 1).drop_last() =~= trusted_oracle_pubkeys@.take(k));
                 assert(trusted_oracle_pubkeys@.take(k + 1).last() == *trusted_key);
             }
-//@proof before /if key_matches < required_majority/
+//@proof before /if [^\n{]*key_matches\s*[<>=]/
     proof { assert(trusted_oracle_pubkeys@.take(trusted_oracle_pubkeys@.len() as int) =~= trusted_oracle_pubkeys@); }
 //@end
 
